@@ -30,6 +30,7 @@ class Rig:
         self.var = m.add_variable(C.TYPE_INDEX[0x06])      # one UNSIGNED16
         m.cob_id = PDO_COB
         m.enabled = True
+        m.subscribe()
         self.map = m
         # a second PDO on the remote node (for disconnect)
         m2 = self.remote.rpdo[1]
@@ -132,6 +133,18 @@ def op_pdo(rig, which):
         rig.ref["pdo"] = None
     elif which == "update":
         m.update()
+    elif which == "echo":
+        # frames with the map's own COB-ID arrive (echo / another producer) while it may be transmitting
+        if rig.ref["pdo"] is not None:
+            t1 = sx.fresh_int("et1", 1, 1000)
+            t2 = sx.fresh_int("et2", 1, 1000)
+            old = sx.mkbytes(sx.items(m.data))
+            rig.net.notify(PDO_COB, sx.fresh_bytes("echo1", 2), t1)
+            rig.net.notify(PDO_COB, sx.fresh_bytes("echo2", 2), t1 + t2)
+            sx.prove(sx.eq_bytes(sx.mkbytes(sx.items(m.data)), old), "received frame overwrote the data being transmitted",
+                     "C17/pdo/echo-data")
+            sx.prove(m.period == rig.pdo_period, "received frames changed the period of a transmitting map",
+                     "C17/pdo/echo-period")
     else:
         rig.var.raw = sx.fresh_int("val", 0, 0xFFFF)
     sx.reach("pdo-" + which)
@@ -202,7 +215,7 @@ def op_disconnect(rig):
 
 PRODUCERS = {
     "sync": (op_sync, ["start_p", "start", "stop"]),
-    "pdo": (op_pdo, ["start_p", "start", "stop", "update", "assign"]),
+    "pdo": (op_pdo, ["start_p", "start", "stop", "update", "assign", "echo"]),
     "hb": (op_hb, ["write1017", "command", "state"]),
     "guard": (op_guard, ["start", "stop"]),
 }
@@ -291,7 +304,7 @@ META = dict(
     assumptions=["periods are positive integers (seconds) in the harness; heartbeat time t ms gives period t/1000.0"],
     stubs=["can (model bus with live task set)", "struct", "threading", "logging"],
     required_reach=["sync-start_p", "sync-start", "sync-stop", "pdo-start_p", "pdo-start", "pdo-stop", "pdo-update",
-                    "pdo-assign", "hb-write1017", "hb-zero", "hb-command", "hb-state", "hb-boot", "guard-start",
+                    "pdo-assign", "pdo-echo", "hb-write1017", "hb-zero", "hb-command", "hb-state", "hb-boot", "guard-start",
                     "guard-stop", "disconnect", "cross"],
     limits=dict(quick=dict(max_decisions=20000), thorough=dict(max_decisions=50000, job_timeout_s=3000)),
     validate_every=dict(quick=7, thorough=101),
